@@ -18,7 +18,8 @@ ENTRY = dict(
          "an ECH configuration) and pre_shared_key (4 forms) across a HelloRetryRequest; crafted CBC records after a completed TLS 1.0/1.1/1.2 handshake on CBC suites (all-padding, "
          "no room for the MAC, MAC-only, inconsistent padding, 0/1/16384/16385/18500-byte regular records); 8 callback-bearing server "
          "configurations (UnwrapSession/WrapSession, GetConfigForClient, GetCertificate, VerifyConnection, client-auth variants) x "
-         "{garbage PSK identities of 1..2000 bytes, genuine resumption by HelloGolang and every PSK parrot}; 15 kinds of post-handshake client traffic after a completed TLS 1.3 handshake by a Go-style and a Chrome_133 client "
+         "{garbage PSK identities of 1..2000 bytes, genuine resumption by HelloGolang and every PSK parrot, and the genuine resumption hello re-sent with 18 structural edits "
+         "of its pre_shared_key extension (bogus identities around the real ticket, fewer/more binders, duplicates, truncated binder)}; 15 kinds of post-handshake client traffic after a completed TLS 1.3 handshake by a Go-style and a Chrome_133 client "
          "(KeyUpdate requested / not requested / x20 / x40 / malformed / unratcheted, NewSessionTicket, CertificateRequest, Finished, "
          "ClientHello, client EE, CompressedCertificate, unknown type) x {client closes, client closes and the server's writes fail, "
          "client stops reading and the server's writes block until the deadline}, server in Read under the watchdog. Distinct by (function/read point, input); non-trivial when "
